@@ -190,7 +190,16 @@ def t_reset_lexer(ck, ctx, only=None, channels=False):
                   rf.loc(ra.node))
         elif readers_in_scope and channels:
             wf, wa = writers[0]
-            rf, ra = readers_in_scope[0]
+            bad = [(rf, ra) for rf, ra in readers_in_scope if not _placeholder_only(rf, ra)]
+            if not bad:
+                rf, ra = readers_in_scope[0]
+                ck.ob("T-CHANNEL", f"lexer.{attr}", True,
+                      f"self.lexer.{attr} (computed from the whole script in {wf.qual}) is consulted in "
+                      f"{sorted({f.qual for f, _ in readers_in_scope})} only as `v[k]` under `if k in v`: it can influence a "
+                      "statement only through a placeholder token that the same pre-processing step put into that statement",
+                      rf.loc(ra.node))
+                continue
+            rf, ra = bad[0]
             ck.ob("T-CHANNEL", f"lexer.{attr}", False,
                   f"self.lexer.{attr} is computed from the whole script in {wf.qual} and read while parsing each statement "
                   f"in {rf.qual}: the outcome of a statement depends on what other statements of the script contain",
@@ -199,6 +208,44 @@ def t_reset_lexer(ck, ctx, only=None, channels=False):
             ck.ob("T-RESET.lexer", f"lexer.{attr}", True, "written but never read in statement scope",
                   writers[0][0].loc(writers[0][1].node))
     return reset_set
+
+
+def _placeholder_only(f, acc):
+    """The value read by `acc` is bound to a local V and V is used only as `K in V` (an if test) or as V[K] / V.get(K)
+    under the guard `K in V`."""
+    bound = None
+    for st in ast.walk(f.node):
+        if isinstance(st, ast.Assign) and len(st.targets) == 1 and isinstance(st.targets[0], ast.Name) \
+                and any(x is acc.node for x in ast.walk(st.value)):
+            bound = st.targets[0].id
+    if bound is None:
+        return False
+    parents = {}
+    for p in ast.walk(f.node):
+        for c in ast.iter_child_nodes(p):
+            parents[id(c)] = p
+    n_assign = sum(1 for st in ast.walk(f.node) if isinstance(st, ast.Assign) and any(
+        isinstance(t, ast.Name) and t.id == bound for t in st.targets))
+    if n_assign != 1:
+        return False
+    for n in ast.walk(f.node):
+        if not (isinstance(n, ast.Name) and n.id == bound and isinstance(n.ctx, ast.Load)):
+            continue
+        par = parents.get(id(n))
+        if isinstance(par, ast.Compare) and len(par.ops) == 1 and isinstance(par.ops[0], ast.In) and par.comparators[0] is n:
+            continue
+        key = None
+        if isinstance(par, ast.Subscript) and par.value is n and isinstance(par.ctx, ast.Load):
+            key = par.slice
+        elif isinstance(par, ast.Attribute) and par.attr == "get" and isinstance(parents.get(id(par)), ast.Call) \
+                and parents[id(par)].args:
+            key = parents[id(par)].args[0]
+        if key is None:
+            return False
+        st = stmt_of(f, n)
+        if (f"{ast.unparse(key)} in {bound}", True) not in guard_atoms(f.node, st):
+            return False
+    return True
 
 
 def t_dom(ck, ctx, func_name, first_pred, second_pred, key, why):
